@@ -707,6 +707,9 @@ func (rt *runtime) toValue(value interface{}) Value {
 			typ := val.Type()
 
 			return objectValue(rt.newNativeFunction(name, file, line, func(c FunctionCall) Value {
+				// The runtime of the call, not the one captured here: a copied
+				// runtime shares this wrapper.
+				rt := c.runtime
 				nargs := typ.NumIn()
 
 				if len(c.ArgumentList) != nargs {
